@@ -252,7 +252,7 @@ func cases(pol string, outcomes []string, rngSalt int64, limit int) []Case {
 	}
 	rec(0, Case{Outcome: map[string]string{}, Latency: map[string]time.Duration{}})
 	if limit > 0 && len(all) > limit {
-		rng := vh.Rand(rngSalt)
+		rng := vh.Rand(rngSalt + int64(vh.EnvInt("VERIF_SALT", 0))*101)
 		rng.Shuffle(len(all), func(i, j int) { all[i], all[j] = all[j], all[i] })
 		all = all[:limit]
 	}
